@@ -378,6 +378,16 @@ def run (F : Flags) (P : Params) (cfg : Cfg) : List Ev → GState → List Bool
   | .direct :: es, g => true :: run F P cfg es g
   | .occ o :: es, g => (step F P cfg g o).2 :: run F P cfg es (step F P cfg g o).1
 
+/-- A function with several trigger decorators of one type: `EvalFunc.trigger_init` starts one `TrigInfo` task per k-th
+decorator of each type ("each trigger task can handle at most one of each type of trigger; all get the same state_active,
+time_active and task_unique decorators").  Every task runs its own `trigger_watch` loop, hence has its own `last_trig_time`
+(and expression table): `k` names the task an occurrence belongs to. -/
+def runGroups (F : Flags) (P : Params) (cfg : Cfg) : List (Nat × Ev) → (Nat → GState) → List Bool
+  | [], _ => []
+  | (_, .direct) :: es, gs => true :: runGroups F P cfg es gs
+  | (k, .occ o) :: es, gs =>
+    (step F P cfg (gs k) o).2 :: runGroups F P cfg es (fun j => if j = k then (step F P cfg (gs k) o).1 else gs j)
+
 end Legacy
 
 /-! ## new subsystem -/
